@@ -386,11 +386,16 @@ def b_strstr(ex, st, args, ins):
 def b_strpbrk(ex, st, args, ins):
     s = _ptr(ex, st, args[0]); acc = _ptr(ex, st, args[1])
     al = b_strlen(ex, st, [acc], ins); i = 0
+    accept = [st.mem.load(acc + j, 1) for j in range(al)]
     while True:
         b = st.mem.load(s + i, 1)
         if _is_zero(ex, st, b): return 0
-        for j in range(al):
-            if _eq_byte(ex, st, b, st.mem.load(acc + j, 1)): return s + i
+        if isinstance(b, int) and all(isinstance(a, int) for a in accept):
+            if b in accept: return s + i
+        else:
+            # one fork on membership instead of one per accept character
+            member = z3.Or([to_bv(b, 8) == to_bv(a, 8) for a in accept]) if accept else z3.BoolVal(False)
+            if ex.concretize_bool(st, member): return s + i
         i += 1
 
 def _ctype(pred):
